@@ -10,6 +10,7 @@
    elements; complete_on axis o: NoDup (concat o), all classes non-empty, same alternatives as the axis. *)
 From Coq Require Import List NArith Bool Permutation.
 From PrefVerif Require Import Lib.Val Lib.Contig Model.SP Proofs.SP Proofs.SPILP.
+From PrefVerif Require Model.C1P Model.PQTreeSP Proofs.PQTreeSP.
 Import ListNotations.
 
 (* ---- clause 1: is_single_peaked_axis is True exactly when, for every voter and every k, the union of the voter's
@@ -185,3 +186,23 @@ Proof.
   - vm_compute in H. discriminate.
   - apply nodupN_correct. vm_compute. reflexivity.
 Qed.
+
+(* ---- is_single_peaked_pq_tree as the algorithm it runs: sp_matrix, isC1P's duplicate removal and the PQ-tree, all
+   mirrored (Model/PQTreeSP.v on top of Model/PQTree.v; the harness demands the implementation's verdict to EQUAL the
+   mirror's at every size, case c11.pq_exact).  Soundness chain of the C05 package re-exported: a True answer means
+   that some axis passes the axis test.  elems = the order in which reorder_sets visits the elements (iteration
+   order of a CPython set, a parameter); it has to cover the row indices occurring in the column sets.
+   (Completeness of the PQ-tree is not proved: a False answer stays compared with the verified reference.) ---- *)
+Theorem pq_tree_sp_sound : forall elems d (alts : list N) (p : list order),
+  NoDup alts -> Forall (complete_on alts) p ->
+  incl (concat (PrefVerif.Model.C1P.dedup_sets
+                  (map (PrefVerif.Model.C1P.col_set (sp_matrix alts p)) (seq 0 (length alts))))) elems ->
+  PrefVerif.Model.PQTreeSP.is_single_peaked_pq_tree_algo elems d alts p = Ok true ->
+  exists axis, Permutation alts axis /\ sp_axis_profile p axis = true.
+Proof. exact PrefVerif.Proofs.PQTreeSP.pq_tree_sp_sound. Qed.
+Print Assumptions pq_tree_sp_sound.
+
+Theorem pq_tree_algo_gate : forall elems d alts p,
+  dt_soc_toc d = false -> PrefVerif.Model.PQTreeSP.is_single_peaked_pq_tree_algo elems d alts p = Err TypeErr.
+Proof. exact PrefVerif.Proofs.PQTreeSP.pq_tree_algo_gate. Qed.
+Print Assumptions pq_tree_algo_gate.
